@@ -16,8 +16,9 @@ fn connect_phase(rep: &mut Rep) {
     };
     for via_auth in [false, true] {
         for &reason in rc::CONNACK_REASONS {
-            for props in [false, true] {
-                let id = format!("connack:auth{}:r{reason:#x}:p{}", via_auth as u8, props as u8);
+            for pmode in [0u8, 1, 2] {
+                let props = pmode > 0;
+                let id = format!("connack:auth{}:r{reason:#x}:p{}", via_auth as u8, pmode);
                 idx += 1;
                 if !rep.take(idx, &id) {
                     continue;
@@ -52,6 +53,21 @@ fn connect_phase(rep: &mut Rep) {
                     p.push(Prop::str(28, "other:1883"));
                     p.push(Prop::pair("a", "2"));
                 }
+                if pmode == 2 {
+                    // a broker that states every capability explicitly, all of them at "not available"; a refusing broker
+                    // may say so of subscription identifiers too (the client cannot work with such a broker, which is for
+                    // the application to find out from the refusal, not from a panic)
+                    p.insert(1, Prop::byte(0x24, 0));
+                    p.push(Prop::byte(0x25, 0));
+                    p.push(Prop::byte(0x28, 0));
+                    p.push(Prop::byte(0x2a, 0));
+                    p.insert(0, Prop::u16(0x21, 5));
+                    p.push(Prop::u16(0x22, 0));
+                    if reason >= 0x80 {
+                        p.insert(2, Prop::byte(0x29, 0));
+                        rep.add("refusing_connacks_with_subscription_identifiers_unavailable", 1);
+                    }
+                }
                 sim.feed_packet(&SPacket::Connack { session_present: false, reason, props: p });
                 sim.settle();
                 let got = sim.last_ctx_result(call);
@@ -63,14 +79,14 @@ fn connect_phase(rep: &mut Rep) {
                     _ => false,
                 };
                 if !ok {
-                    viol(rep, format!("C13/{call}-wrong-result/connack-reason={}", if reason < 0x80 { "success" } else { "failure" }), &id, format!("CONNACK reason {reason:#x} (props {props}): {call}() returned {:?}", got), &sim);
+                    viol(rep, format!("C13/{call}-wrong-result/connack-reason={}", if reason < 0x80 { "success" } else { "failure" }), &id, format!("CONNACK reason {reason:#x} (props mode {pmode}): {call}() returned {:?}", got), &sim);
                 }
                 for p in sim.panics.clone() {
                     viol(rep, format!("C13/panic/{p}"), &id, format!("panic: {p}"), &sim);
                 }
                 rep.add("evaluations", 1);
                 rep.add("connect_outcomes_checked", 1);
-                rep.distinct(&(via_auth, reason, props));
+                rep.distinct(&(via_auth, reason, pmode));
                 rep.sample(|| format!("{id} -> {:?}", got.map(|g| brief_ctx(&g))));
             }
         }
